@@ -243,8 +243,11 @@ pub fn main(args: &[String]) -> i32 {
                         steps.push(json!({"a": "deliver", "seq": i, "to": 2}));
                     }
                     steps.push(json!({"a": "client", "n": 2, "op": other, "v": "s", "f": "", "e": -1}));        // seq nf+1, held back
+                    // two more field writes on node 1: the first ties with the other write on time, the second is newer
                     steps.push(json!({"a": "client", "n": 1, "op": "hset", "v": "9", "f": "a", "e": -1}));      // seq nf+2
+                    steps.push(json!({"a": "client", "n": 1, "op": "hset", "v": "8", "f": "b", "e": -1}));      // seq nf+3
                     steps.push(json!({"a": "deliver", "seq": nf + 2, "to": 2}));
+                    steps.push(json!({"a": "deliver", "seq": nf + 3, "to": 2}));
                     steps.push(json!({"a": "deliver", "seq": nf + 1, "to": 1}));
                     run_one(run, 2, steps, &mut out);
                 }
